@@ -210,3 +210,41 @@ def min_angle(faces, pos):
             cr = (u[1] * w[2] - u[2] * w[1], u[2] * w[0] - u[0] * w[2], u[0] * w[1] - u[1] * w[0])
             best = min(best, math.atan2(math.sqrt(sum(c * c for c in cr)), sum(u[i] * w[i] for i in range(3))))
     return best
+
+
+def face_angles(faces, pos):
+    """interior angle at each of the three index slots of every face (atan2 form); a face which
+    repeats an index is degenerate and gets None"""
+    out = []
+    for f in faces:
+        if len(set(f)) < 3:
+            out.append(None)
+            continue
+        row = []
+        for k in range(3):
+            o, p, q = pos[f[k]], pos[f[(k + 1) % 3]], pos[f[(k + 2) % 3]]
+            u = [p[i] - o[i] for i in range(3)]
+            w = [q[i] - o[i] for i in range(3)]
+            cr = (u[1] * w[2] - u[2] * w[1], u[2] * w[0] - u[0] * w[2], u[0] * w[1] - u[1] * w[0])
+            row.append(math.atan2(math.sqrt(sum(c * c for c in cr)), sum(u[i] * w[i] for i in range(3))))
+        out.append(tuple(row))
+    return out
+
+
+def glue(piece_a, piece_b, shared, reverse):
+    """two face lists on their own vertex sets 0..; identify the first `shared` vertices of face 0 of
+    piece_b with those of face 0 of piece_a (in reversed order if `reverse`), all other vertices of
+    piece_b become new.  shared = 0: disjoint, 1: pinch vertex, 2: common edge, 3: common triangle.
+    -> (faces, vertex count)"""
+    na = 1 + max(v for f in piece_a for v in f)
+    nb = 1 + max(v for f in piece_b for v in f)
+    target = list(piece_a[0][:shared])
+    if reverse:
+        target.reverse()
+    mapping = dict(zip(piece_b[0][:shared], target))
+    nxt = na
+    for v in range(nb):
+        if v not in mapping:
+            mapping[v] = nxt
+            nxt += 1
+    return [tuple(f) for f in piece_a] + [tuple(mapping[v] for v in f) for f in piece_b], nxt
